@@ -165,7 +165,15 @@ func runCase(out *bufio.Writer, flushLine bool, kind string, params []string, op
 	out.Flush()
 }
 
-var hangLimit = 4 * time.Second
+// hangLimit: an operation that has not returned after this long is reported as `hang` (a cycle in a linked
+// structure, a mutex left locked).  Generous, because a starved process on a loaded machine must not be
+// mistaken for a hang; VERIF_HANG_MS overrides it.
+var hangLimit = func() time.Duration {
+	if v := os.Getenv("VERIF_HANG_MS"); v != "" {
+		return time.Duration(atoi(v)) * time.Millisecond
+	}
+	return 20 * time.Second
+}()
 
 // runTimedCase runs one case inside a synctest bubble.
 func runTimedCase(out *bufio.Writer, kind string, params []string, ops []string, mk func([]string) Runner) {
